@@ -240,6 +240,11 @@ def run(tier):
                       "%s: without a lexical guard texts outside the core schema are typed as numbers" % what, site=site(f, t["sp"]),
                       detail={"argument": cfg.expr_str(arg)})
     rep.floor("permissive std parser calls needing a guard", n, 1)
+    # (c') ... and the guard is the only way to say "not a number": in a function that answers Option<number> and owns a guarded parse,
+    # every `None` it builds itself sits on the guard's false edge (a length limit, a fast exit for "long text" etc. would turn
+    # numbers of the core schema into strings)
+    n_none = rejects_only_by_guard(rep, F, pf64, "rejects-only-by-guard")
+    rep.floor("None results built by the float resolver", n_none, 1)
     # (e) no parsed number is converted with a lossy `as`
     from engine import callgraph
     edges, _ = callgraph.build(F)
@@ -277,6 +282,36 @@ def run(tier):
     rep.extra["resolver_functions"] = len(reach)
     rep.floor("functions reachable from the resolver", len(reach), 4)
     return rep
+
+
+def rejects_only_by_guard(rep, F, f, rule):
+    guards = []
+    for b2, blk in enumerate(f.blocks):
+        tt = blk["term"]
+        if blk["cleanup"] or tt["k"] != "switch":
+            continue
+        e = tables.normalize(cfg.expr_operand(f, tt["discr"], 14))
+        neg = False
+        while e[0] == "un" and e[1] == "Not":
+            e = e[2]
+            neg = not neg
+        if e[0] != "call" or not e[1] or not e[1].startswith("saphyr::"):
+            continue
+        g = F.fns.get(e[1])
+        if g is None or g.d.get("output") != "bool" or not any(_same_text(a, ("param", 1)) for a in e[2]):
+            continue
+        m, other = cfg.switch_edge_blocks(f, b2)
+        false_tg = other if neg else m.get(0)
+        if false_tg is not None:
+            guards.append((b2, false_tg))
+    n = 0
+    for bi, si, st in cfg.stmts(f):
+        if st["k"] == "assign" and st["rv"]["k"] == "agg" and st["rv"].get("adt") == "std::option::Option" and st["rv"].get("variant") == "None":
+            n += 1
+            ok = any(bi == tg or cfg.dominated_by_edge(f, bi, b2, tg) for b2, tg in guards)
+            rep.check(ok, rule, "%s#None%d" % (short(f.key), n), "the resolver answers 'not a number' on a path that has not failed the lexical test of the core schema: "
+                      "texts the schema defines as numbers are typed as strings", site=site(f, st["sp"]))
+    return n
 
 
 def _guarded_by_local_predicate(F, f, site_bb, arg):
